@@ -6,3 +6,6 @@ import "time"
 
 // verifTimerReset is a verification hook; it does nothing in the default build.
 func verifTimerReset(*EventTimer, time.Duration) {}
+
+// verifTimerStop is a verification hook; it does nothing in the default build.
+func verifTimerStop(*EventTimer) {}
